@@ -42,6 +42,7 @@ def run(tier):
         chk.clause('C12.kern.sweep', 'sp_?trsv solves every supernode')
         for p in _drv.PRECS:
             kernels.supernode_sweep_rule(chk, 'C12.kern.sweep', prog, p, cfgname)
+        cond.norm_sum_rule(chk, 'C12.norm', prog, cfgname)
         chk.clause('C12.lacon', 'reverse-communication state of ?lacon2 written before read on every call history')
         for p in _drv.PRECS:
             reentry.run(chk, 'C12.lacon', prog, p, cfgname)
